@@ -36,17 +36,52 @@ def payload_spec(target):
     raise ValueError(target)
 
 
+def payload_spec_wide(target):
+    """like payload_spec for multi-megabyte payloads: a 3-ary tree of cells with up to 127 data bytes whose serialised cell
+    data is exactly `target` bytes (reference width 2 or 3 bytes, whichever the resulting cell count implies)"""
+    for rs in (2, 3):
+        n = max(2, target // (2 + 127 + rs))
+        sizes = [127] * n
+        total = sum(2 + x for x in sizes) + rs * (n - 1)
+        i = 0
+        while total > target:
+            cut = min(sizes[i], total - target)
+            sizes[i] -= cut
+            total -= cut
+            i += 1
+        while total < target:
+            gap = target - total
+            add = min(127, gap - 2 - rs)
+            if add < 0:
+                break
+            sizes.append(add)
+            total += 2 + add + rs
+        if total != target or (len(sizes).bit_length() + 7) // 8 != rs:
+            continue
+        spec = []
+        m = len(sizes)
+        for k, nb in enumerate(sizes):
+            h = m - 1 - k
+            refs = [m - 1 - c for c in range(3 * h + 1, 3 * h + 4) if c < m]
+            spec.append({'k': 'o', 'b': [nb * 8, 2, k], 'r': refs})
+        return spec
+    raise ValueError(target)
+
+
 def boundary_specs(tier):
     out = []
     for n in (255, 256, 257):
         out.append(('cells=%d' % n, heap_spec(n)))
     for t in (254, 255, 256, 257, 127, 128):
         out.append(('payload=%d' % t, payload_spec(t)))
+    # payload sizes at which the offset width grows (x2 when cache bits double the index entries): a few hundred cells, cheap
+    for t in (65535, 65536, 65537, 32767, 32768):
+        out.append(('payload=%d' % t, payload_spec(t)))
     if tier == 'thorough':
         for n in (65535, 65536, 65537):
             out.append(('cells=%d' % n, heap_spec(n)))
-        for t in (65535, 65536, 65537, 32767, 32768):
-            out.append(('payload=%d' % t, payload_spec(t)))
+        for t in (16777215, 16777216, 8388607, 8388608):
+            out.append(('payload=%d' % t, payload_spec_wide(t)))
     # depth-1023 chain and doubling ladder
     for ladder in (False, True):
         spec = [{'k': 'o', 'b': [3, 2, 1], 'r': []}]
